@@ -42,9 +42,10 @@ CheckReport(r) ==
       vt == Range(r.vt)  vn == Range(r.vn)
       key(v) == <<v[1], v[2], v[5]>>
       plain(v) == \A i \in span(v) : i >= 1 /\ i <= Len(r.kinds) /\ ord(i)        \* no tag comment inside the violation's lines
-      tagged(v) == \E i \in span(v) : v[1] \in Sup(i)                            \* some token of v carries a matching tag
+      \* some token of v on an ordinary line carries a matching tag
+      tagged(v) == \E i \in span(v) : i >= 1 /\ i <= Len(r.kinds) /\ ord(i) /\ v[1] \in Sup(i)
   IN /\ Chk("C11_OutsideTagsReported", 0, \A v \in vn : (plain(v) /\ ~tagged(v)) => \E w \in vt : key(w) = key(v))
-     /\ Chk("C11_TaggedNotReported", 0, \A v \in vt : plain(v) => ~tagged(v))
+     /\ Chk("C11_TaggedNotReported", 0, \A v \in vt : ~tagged(v))
      /\ Chk("C11_NoNewViolations", 0, \A v \in vt : \E w \in vn : key(w) = key(v))
      /\ Chk("C11_BareOffWrapEmptyReport", 0, ~r.wrapped \/ vt = {})
      /\ Chk("C11_BareOffWrapFixKeepsText", 0, ~r.wrapped \/ r.fixSame)
